@@ -28,6 +28,15 @@ Definition tdeclare (x : nat) (t : ty) (e : tenv) : tenv :=
 Definition in_current (x : nat) (e : tenv) : bool :=
   match e with [] => false | s :: _ => match tlookup_scope x s with Some _ => true | None => false end end.
 
+(* no variable is passed by mutable reference twice in one call (the caller's copies would alias) *)
+Fixpoint distinct_refs (args : list (bool * expr)) : bool :=
+  match args with
+  | [] => true
+  | (true, EVar x) :: r =>
+      negb (existsb (fun a => match a with (true, EVar y) => Nat.eqb x y | _ => false end) r) && distinct_refs r
+  | _ :: r => distinct_refs r
+  end.
+
 Section WithSigs.
 Variable structs : structs_t.
 Variable sigs : list sig.
@@ -95,9 +104,24 @@ Fixpoint check_expr (G : tenv) (e : expr) {struct e} : tres ty :=
             end
         | _ => TErr ENotStruct
         end)
+  | ECallR f args =>
+      match nth_error sigs f with
+      | None => TErr ENotFunction
+      | Some (pts, rt) =>
+          if negb (distinct_refs args) then TErr EArgType else
+          (fix ca (args : list (bool * expr)) (pts : list ty) {struct args} : tres ty :=
+             match args, pts with
+             | [], [] => TOk rt
+             | a1 :: r, t1 :: pr =>
+                 (* by reference exactly where the parameter is a reference, and then the argument is a variable *)
+                 if negb (Bool.eqb (fst a1) (is_ref t1)) || (fst a1 && negb (is_var (snd a1))) then TErr EArgType else
+                 tbind (check_expr G (snd a1)) (fun te => if ty_eqb te (pty_in t1) then ca r pr else TErr EArgType)
+             | _, _ => TErr EArity
+             end) args pts
+      end
   end.
 
-Definition printable (t : ty) : bool := match t with TInt _ | TBool => true | TVoid | TStruct _ => false end.
+Definition printable (t : ty) : bool := match t with TInt _ | TBool => true | TVoid | TStruct _ | TMutRef _ => false end.
 
 (* check_stmt returns the environment after the statement *)
 Fixpoint check_stmt (ret : ty) (inloop : bool) (G : tenv) (s : stmt) {struct s} : tres tenv :=
@@ -108,7 +132,7 @@ Fixpoint check_stmt (ret : ty) (inloop : bool) (G : tenv) (s : stmt) {struct s} 
       if in_current x G then TErr ERedeclared else
       tbind (check_expr G e) (fun te =>
         match t with
-        | TVoid => TErr EVoidValue
+        | TVoid | TMutRef _ => TErr EVoidValue
         | _ => if ty_eqb te t then TOk (tdeclare x t G) else TErr EAssignType
         end)
   | SAssign x e =>
@@ -167,7 +191,7 @@ Fixpoint check_stmt (ret : ty) (inloop : bool) (G : tenv) (s : stmt) {struct s} 
          end) es
   | SExpr e =>
       match e with
-      | ECall _ _ => tbind (check_expr G e) (fun _ => TOk G)
+      | ECall _ _ | ECallR _ _ => tbind (check_expr G e) (fun _ => TOk G)
       | _ => TErr ENotCallStmt
       end
   end.
@@ -191,9 +215,10 @@ Fixpoint distinct_params (ps : list (nat * ty)) : bool :=
 
 Definition check_fn (f : fn) : tres unit :=
   if negb (distinct_params (fparams f)) then TErr ERedeclared else
-  tbind (check_stmt (fret f) false [fparams f] (fbody f)) (fun _ =>
+  tbind (check_stmt (fret f) false [map (fun xt => (fst xt, pty_in (snd xt))) (fparams f)] (fbody f)) (fun _ =>
     match fret f with
     | TVoid => TOk tt
+    | TMutRef _ => TErr EReturnType
     | _ => if returns (fbody f) then TOk tt else TErr EMissingReturn
     end).
 End WithSigs.
